@@ -103,7 +103,7 @@ package account
 //@   requires adb != nil
 //@   ensures [hit]  old(registered(ref(adb), addr)) != 0 && !ptr(accountObject, old(registered(ref(adb), addr))).deleted ==> ref(result) == old(registered(ref(adb), addr))
 //@   ensures [keep] forall a common.Address :: old(registered(ref(adb), a)) != 0 ==> registered(ref(adb), a) == old(registered(ref(adb), a))
-//@   ensures [reg]  result != nil ==> ref(result) == registered(ref(adb), addr) && !result.deleted && result.db == adb
+//@   ensures [reg]  result != nil ==> ref(result) == registered(ref(adb), addr) && !result.deleted && result.db == adb && result.address == addr
 //@   modifies ghost(acct)
 
 //@ func accountObject.onDirty
@@ -142,6 +142,7 @@ package account
 //@   requires ao != nil && ao.db != nil
 //@   ensures [value] ao.data.Nonce == nonce && ao.onDirty == nil
 //@   ensures [dirty] old(ao.onDirty) != nil ==> has(ao.db.accountObjectsDirty, ao.address)
+//@   ensures [dirtyframe] (forall k common.Address :: k != ao.address ==> has(ao.db.accountObjectsDirty, k) == old(has(ao.db.accountObjectsDirty, k))) && (old(has(ao.db.accountObjectsDirty, ao.address)) ==> has(ao.db.accountObjectsDirty, ao.address)) && (old(ao.onDirty) == nil ==> has(ao.db.accountObjectsDirty, ao.address) == old(has(ao.db.accountObjectsDirty, ao.address)))
 //@   modifies ao.data.Nonce, ao.onDirty, heap("map[common.Address]struct{}")
 
 //@ func accountObject.SetNonce
@@ -151,7 +152,8 @@ package account
 //@   ensures [prev]    unbox(ao.db.transitions[len(ao.db.transitions)-1], nonceChange).prev == old(ao.data.Nonce)
 //@   ensures [account] unbox(ao.db.transitions[len(ao.db.transitions)-1], nonceChange).account != nil && *unbox(ao.db.transitions[len(ao.db.transitions)-1], nonceChange).account == ao.address
 //@   ensures [prefix]  forall i int :: 0 <= i && i < old(len(ao.db.transitions)) ==> ao.db.transitions[i] == old(ao.db.transitions[i])
-//@   ensures [value]   ao.data.Nonce == nonce
+//@   ensures [value]   ao.data.Nonce == nonce && ao.onDirty == nil
+//@   ensures [dirtyframe] (forall k common.Address :: k != ao.address ==> has(ao.db.accountObjectsDirty, k) == old(has(ao.db.accountObjectsDirty, k))) && (old(has(ao.db.accountObjectsDirty, ao.address)) ==> has(ao.db.accountObjectsDirty, ao.address)) && (old(ao.onDirty) == nil ==> has(ao.db.accountObjectsDirty, ao.address) == old(has(ao.db.accountObjectsDirty, ao.address)))
 //@   modifies ao.db.transitions, elems(ao.db.transitions), ao.data.Nonce, ao.onDirty, heap("map[common.Address]struct{}")
 
 //@ func accountObject.IncreaseNonce
@@ -167,6 +169,20 @@ package account
 //@   property C04
 //@   requires s != nil && ch.account != nil && registered(ref(s), *ch.account) != 0 && !ptr(accountObject, registered(ref(s), *ch.account)).deleted && ptr(accountObject, registered(ref(s), *ch.account)).db != nil
 //@   ensures [restore] ptr(accountObject, old(registered(ref(s), *ch.account))).data.Nonce == ch.prev
+//@   ensures [dirtyframe] (forall k common.Address :: k != *ch.account ==> has(s.accountObjectsDirty, k) == old(has(s.accountObjectsDirty, k))) && (old(ptr(accountObject, registered(ref(s), *ch.account)).onDirty) == nil ==> has(s.accountObjectsDirty, *ch.account) == old(has(s.accountObjectsDirty, *ch.account)))
+//@   modifies ghost(acct), ptr(accountObject, registered(ref(s), *ch.account)).data.Nonce, ptr(accountObject, registered(ref(s), *ch.account)).onDirty, heap("map[common.Address]struct{}")
+
+// A frame that sets a nonce and is reverted (lemma function, zz_verif_lemmas.go): the nonce is back - and so
+// must be the dirty mark, because Finalise(true) deletes dirty empty accounts and the root must equal the root
+// of a run in which the frame never executed. [dirty] FAILS for an account that was not yet dirty: the journal
+// does not record dirtiness (known finding, see /verif/known_findings.jsonl).
+//@ func lemmaSetNonceUndo
+//@   property C04
+//@   requires ao != nil && ao.db != nil && registered(ref(ao.db), ao.address) == ref(ao) && !ao.deleted
+//@   ensures [nonce] ao.data.Nonce == old(ao.data.Nonce)
+//@   ensures [dirty] has(ao.db.accountObjectsDirty, ao.address) == old(has(ao.db.accountObjectsDirty, ao.address))
+//@   ensures [dirty.marked] old(ao.onDirty) == nil ==> has(ao.db.accountObjectsDirty, ao.address) == old(has(ao.db.accountObjectsDirty, ao.address))
+//@   ensures [others] forall k common.Address :: k != ao.address ==> has(ao.db.accountObjectsDirty, k) == old(has(ao.db.accountObjectsDirty, k))
 
 // ---------------------------------------------------------------------------------------------
 // Native-token ledger (C06): bal[a] is the balance of address a as StateDB.GetBalance reports it, supply the sum
